@@ -1,6 +1,6 @@
 (* C17 - Tian-Pearl c-factor identification returns the true c-factor. *)
-From Coq Require Import List Bool.
-From Y0 Require Import Base.ListSet Graph.MixedGraph Dsl.Syntax Dsl.Build Alg.Id Alg.Tian Proofs.TianP.
+From Coq Require Import List Bool Arith.
+From Y0 Require Import Base.ListSet Graph.MixedGraph Dsl.Syntax Dsl.Build Alg.Id Alg.Tian Proofs.TianP Proofs.TianTotalP.
 Import ListNotations.
 
 (* Soundness (value = Q[C] in every compatible model) is not yet proved: it needs Sem/Scm.v and the c-factor
@@ -13,4 +13,21 @@ Theorem C17_failure_only_when_the_ancestral_set_is_the_whole_district fuel g C T
              set_eqb (ancestors_inclusive (subgraph g T') C) C = false.
 Proof. exact (tian_fail_only_when_ancestral_set_is_whole_district fuel g C T q topo). Qed.
 
+(* 'returns an expression ... or reports failure': on every valid input - C non-empty inside T, both listed in the order, G_T one district, G_C one
+   district (the precondition of IDENTIFY), Q[T] a probability term or a sum / product / fraction - the routine answers with an expression or with
+   failure, never with another error, within |T| + 1 recursion steps *)
+Theorem C17_identify_answers_or_fails_on_every_valid_input g C T q topo :
+  C <> [] -> incl C T -> incl T topo ->
+  length (districts (subgraph g T)) <= 1 -> length (districts (subgraph g C)) = 1 -> is_spf q || is_prob q = true ->
+  identify_district_variables (S (length T)) g C T q topo = TFail \/ exists e, identify_district_variables (S (length T)) g C T q topo = TOk e.
+Proof. intros H1 H2 H3 H4 H5 H6. apply tian_total; [apply Nat.lt_succ_diag_r|repeat split; assumption]. Qed.
+
+(* not vacuous: Tian & Pearl's example shape - T = {1,2,3,4} one district, C = {1,3} *)
+Example C17_valid_input_exists :
+  let g := MG [0; 1; 2; 3; 4] [(0, 1); (1, 3); (2, 3); (3, 4)] [(1, 3); (2, 4); (3, 4)] in
+  length (districts (subgraph g [1; 2; 3; 4])) <= 1 /\ length (districts (subgraph g [1; 3])) = 1 /\
+  exists e, identify_district_variables 5 g [1; 3] [1; 2; 3; 4] (EProb None [V 1; V 2; V 3; V 4] [V 0]) [0; 1; 2; 3; 4] = TOk e.
+Proof. vm_compute. split; [auto|]. split; [reflexivity|]. eexists. reflexivity. Qed.
+
 Print Assumptions C17_failure_only_when_the_ancestral_set_is_the_whole_district.
+Print Assumptions C17_identify_answers_or_fails_on_every_valid_input.
